@@ -753,11 +753,12 @@ def names_for(n):
 def C11(run):
     broken = lean_gate(run, THEOREMS['C11'])
     rng = rng_for(run)
-    n = budget(run, 4000, 80000)
+    n = budget(run, 12000, 150000)
     items, meta = [], []
+    fams = ['plain', 'symmetric', 'symmetric', 'crossover', 'threeway', 'threeway', 'sure_losers', 'on_quota', 'few_supported', 'chains']
     for _ in range(n):
         rule = rng.choice(ALL)
-        fam, p = gen.profile(rng, rule)
+        fam, p = gen.profile(rng, rule, fams + (['write_ins'] if rule == 'mpls' else []))
         o = gen.options(rng, rule)
         if o.get('arithmetic') == 'rational' and rule in ('meek', 'warren'):
             continue
